@@ -1198,6 +1198,10 @@ def oracle_steps(d, run):
                         kk += 1
                         k[(s, m)] = kk
                     local[(s, m)] = local.get((s, m), False) or is_local
+                if o == 'raised':
+                    # whether an entry Error rejected was counted depends on the decorator order: the count is
+                    # unknown until the next entry from another state
+                    k[(s, m)] = None
                 if 'Retry' not in feats or r == 0:
                     if o == 'failed':
                         fails.append(('retry-exact', dict(w, outcome=o, retries=r, problem='on_failure without a limit')))
